@@ -589,15 +589,26 @@ class SymEval:
                               % norm_text(st.test)[:60])
         e1, e2 = dict(env), dict(env)
         r1 = r2 = None
+        # arrays that exist before the branch may be written in place by either arm: each arm
+        # starts from the state before the branch, and the states after the two arms are joined
+        # element by element (the objects keep their identity, so aliases stay aliases).  Before
+        # this (sixth session) the second arm ran on what the first arm had left behind, and an
+        # in-place store under an undecided test looked unconditional (round-9 seed C13).
+        arrs = self._reachable_arrays(env)
+        snap = [dict(a.entries) for a in arrs]
         try:
             self.exec_block(st.body, e1)
         except _Return as r:
-            r1 = r
+            r1 = _Return(self._detach(r.v))
         except Unsupported as u:
             if 'raise reached' in str(u) or 'assert False' in str(u):
                 r1 = 'dead'
             else:
                 raise
+        after1 = [dict(a.entries) for a in arrs]
+        for a, s0 in zip(arrs, snap):
+            a.entries.clear()
+            a.entries.update(s0)
         try:
             self.exec_block(st.orelse, e2)
         except _Return as r:
@@ -607,6 +618,22 @@ class SymEval:
                 r2 = 'dead'
             else:
                 raise
+        if r2 is not None and r1 is None:
+            # execution continues from the first arm only
+            for a, s1 in zip(arrs, after1):
+                a.entries.clear()
+                a.entries.update(s1)
+        elif r1 is None and r2 is None:
+            for a, s1 in zip(arrs, after1):
+                for idx in set(s1) | set(a.entries):
+                    v1, v2 = s1.get(idx), a.entries.get(idx)
+                    if v1 is None or v2 is None:
+                        a.entries[idx] = v1 if v2 is None else v2
+                    elif v1 is not v2:
+                        try:
+                            a.entries[idx] = self.join(v1, v2, st, 'elem%s' % (list(idx),))
+                        except Unsupported:
+                            a.entries.pop(idx, None)
         if r1 is not None and r2 is not None:
             if r1 == 'dead' and r2 == 'dead':
                 raise Unsupported('raise reached on both arms')
@@ -633,6 +660,44 @@ class SymEval:
                 env[k] = self.join(e1[k], e2[k], st, k)
             else:
                 env[k] = e1.get(k, e2.get(k))
+
+    def _reachable_arrays(self, env):
+        seen, out = set(), []
+
+        def visit(v, depth):
+            if id(v) in seen or depth > 3:
+                return
+            if isinstance(v, SArray):
+                seen.add(id(v))
+                out.append(v)
+            elif isinstance(v, (list, tuple)):
+                seen.add(id(v))
+                for x in v:
+                    visit(x, depth + 1)
+            elif isinstance(v, dict):
+                seen.add(id(v))
+                for x in v.values():
+                    visit(x, depth + 1)
+            elif isinstance(v, Obj):
+                seen.add(id(v))
+                for x in v.attrs.values():
+                    visit(x, depth + 1)
+        for v in env.values():
+            visit(v, 0)
+        return out
+
+    def _detach(self, v):
+        if isinstance(v, SArray):
+            c = v.copy()
+            for k_, x_ in v.__dict__.items():
+                if k_ not in ('shape', 'entries', 'default', 'sample'):
+                    setattr(c, k_, x_)
+            return c
+        if isinstance(v, tuple):
+            return tuple(self._detach(x) for x in v)
+        if isinstance(v, list):
+            return [self._detach(x) for x in v]
+        return v
 
     def join(self, a, b, st, name):
         if a is b:
